@@ -140,6 +140,15 @@ _SOFT15 = []
 
 def run(ctx, idx):
     del _SOFT15[:]
+    ctx.rule("C15.i", "What is written for a value depends on that value and its type alone: nothing on the path of Program.to_string goes through a result cache (functools.lru_cache and the like). Such caches key by equality and hash - True, 1 and 1.0 (and 0.0 / -0.0, False / 0) share one entry - so whichever was formatted first in the process decides the text of the others: a float 1.0 comes out as `True` after a boolean was written, and the loader reads that back as text.")
+    _ts = idx.func("mpilot.program", "Program.to_string")
+    if _ts is None:
+        raise AnalysisError("C15.i: Program.to_string vanished")
+    _memo = K.memoised_helpers(idx, _ts)
+    ctx.ob("C15.i", "%s::no-result-cache" % _ts.key, K.rel(_ts), (_memo[0][0].node.lineno if _memo else _ts.node.lineno), not _memo,
+           "no cached helper on the serialisation path" if not _memo else "`%s` is cached with `@%s`: values that compare equal but are written differently (True / 1 / 1.0, 0.0 / -0.0) share one cache entry, so the text of a value depends on what was serialised earlier in the process" % (_memo[0][0].name, _memo[0][1]))
+    if _memo:
+        return
     ctx.assume("str()/repr() of int prints -?d+; of float prints d+.d+, d(.d+)?e[+-]dd+, inf or nan (reference languages fixed by Python)")
     ctx.rule("C15.a", "Numbers: every text the serialiser can print for an int or float is read back as a number: L_repr_int ⊆ L(INT) and L_repr_float ⊆ L(FLOAT) ∪ (single plain token that float() accepts).")
     ctx.rule("C15.b", "Strings are escaped for the reader: a str value reaches the output between quotes only through an escaping step handling the backslash and then the quote; reference names are emitted bare only for Result-typed parameters.")
